@@ -579,6 +579,30 @@ class Signature:
         )
         self.validate()
 
+    def __eq__(self, other: object) -> bool:
+        # The parameters are ordered: (a: int, b: str, /) and (b: str, a: int, /) are
+        # different signatures. Comparing the dicts would ignore the order, and would
+        # make equal signatures hash differently (__hash__ hashes the ordered items).
+        if not isinstance(other, Signature):
+            return NotImplemented
+        return (
+            tuple(self.parameters.items()),
+            self.return_value,
+            self.is_asynq,
+            self.has_return_annotation,
+            self.allow_call,
+            self.evaluator,
+            self.deprecated,
+        ) == (
+            tuple(other.parameters.items()),
+            other.return_value,
+            other.is_asynq,
+            other.has_return_annotation,
+            other.allow_call,
+            other.evaluator,
+            other.deprecated,
+        )
+
     def __hash__(self) -> int:
         return hash(
             (
